@@ -6,7 +6,7 @@ from fractions import Fraction as F
 
 from . import direction_folds as df
 
-EXPLANATION = "(R1) get_direction interpreted on the COMPLETE finite domain of string forms (letters, the six triples, upper case) in exact rational arithmetic: exactly the documented axis vectors, single letters right-handed, unusable directions raise; (R2) normalize = v/|v| for every zero-pattern family of a generic vector (zero vector unchanged); VectorBasis / get_direction(vector) / roll with normalize abstracted as positive scaling: orthogonal, u x v parallel to +n (sign decided per orthant of the non-zero components), n along the request, caller's vector unchanged; (R3/R4) perpendicular_vector orthogonal and non-vanishing in every branch, (u x (n x u)).n identity for the repository's cross product (symbolic execution); (R5) 'top'/'side': the summed vector equals ((pos-origin)*mass) x velocity over ONE sphere mask |pos-origin| < radius (polynomial normal forms), normal along +L / L in the image plane; (R6) Vector.norm not cached. (R5) keyword spellings in any case; (R7) what map() asks of get_direction: the caller's direction, the first layer, window width and height, origin. (R8) Datagroup.layer carries the members the group holds now."
+EXPLANATION = "(R1) get_direction interpreted on the COMPLETE finite domain of string forms (letters, the six triples, upper case) in exact rational arithmetic: exactly the documented axis vectors, single letters right-handed, unusable directions raise; (R2) normalize = v/|v| for every zero-pattern family of a generic vector (zero vector unchanged); VectorBasis / get_direction(vector) / roll with normalize abstracted as positive scaling: orthogonal, u x v parallel to +n (sign decided per orthant of the non-zero components), n along the request, caller's vector unchanged; (R3/R4) perpendicular_vector orthogonal and non-vanishing in every branch, (u x (n x u)).n identity for the repository's cross product (symbolic execution); (R5) 'top'/'side': the summed vector equals ((pos-origin)*mass) x velocity over ONE sphere mask |pos-origin| < radius (polynomial normal forms), normal along +L / L in the image plane; (R6) Vector.norm not cached. (R5) keyword spellings in any case; (R7) what map() asks of get_direction: the caller's direction, the first layer, window width and height, origin. (R8) Datagroup.layer carries the members the group holds now. R1 also asks get_direction again after the first answer was edited in place (no axis vector is shared between calls)."
 NOT_DECIDED = 'degenerate floating-point inputs (denormals, overflow of (x+y)/z); zero net angular momentum; tolerance-based zero tests are treated adversarially (they may hold at a tiny non-zero point)'
 TRUSTED = ('CPython ast', 'polynomial/rational normal forms with square-root relations (sa/poly.py)', 'the interpreter sa/models.py (ModelEval) and its library models')
 
